@@ -3179,6 +3179,12 @@ class Mailbox:
 
         mbox_match = ref_mbox_name + mbox_match
 
+        # INBOX is case-insensitive (RFC 3501 section 5.1) and is stored
+        # in the db as "inbox".
+        #
+        if mbox_match.lower() == "inbox":
+            mbox_match = "inbox"
+
         # Escape regex metacharacters, then convert IMAP wildcards.
         #
         mbox_match = "^" + re.escape(mbox_match) + "$"
